@@ -4,6 +4,8 @@ import Rpki.Props.C05
 #print axioms Rpki.Props.C05.capture_with_header_is_one_value
 #print axioms Rpki.Props.C05.manifest_decode_encode
 #print axioms Rpki.Props.C05.manifest_reencode
+#print axioms Rpki.Props.C05.crl_list_roundtrip
+#print axioms Rpki.Props.C05.crl_lookup_agrees_with_iteration
 #print axioms Rpki.Props.C05.time_roundtrip
 #print axioms Rpki.Props.C05.serial_roundtrip
 #print axioms Rpki.Props.C05.signed_attrs_roundtrip
